@@ -25,6 +25,7 @@
 -/
 import SuironVerif.Lemmas.UnifyWF
 import SuironVerif.Lemmas.UnifyMgu
+import SuironVerif.Lemmas.FuelMono
 namespace Suiron.C06
 
 /-- (E) a successful unification keeps every earlier binding. -/
@@ -88,6 +89,12 @@ theorem unify_mgu (fo : FloatOps) (f : Nat) (a b : Term) (σ σ' : Subst)
   constructor
   · intro h1; exact ⟨h1.mono hs.1, hs.2 θ h1⟩
   · intro h1; exact unify_general fo θ f a b σ σ' h ha hb hσ h1.1 h1.2
+
+/-- fuel is a modelling device only: whenever unification returns (a set, failure or a panic) with two fuel values, it
+    returns the same — so every theorem above speaks about THE outcome of the unification. -/
+theorem unify_outcome_unique (fo : FloatOps) (a b : Term) (σ : Subst) (f f' : Nat)
+    (h : unify fo f a b σ ≠ .oof) (h' : unify fo f' a b σ ≠ .oof) : unify fo f a b σ = unify fo f' a b σ :=
+  unify_unique fo a b σ f f' h h'
 
 -- non-vacuity: a list pattern with a tail variable and a nested complex term are well formed
 example : Spec.goodT (.cons (.var 1 "$H") (.cons (.var 2 "$T") Term.empty 1 true) 2 false) = true := by decide
